@@ -30,6 +30,7 @@ type Stats struct {
 	ProofsChecked         int
 	RevertedKinds         map[string]int // transaction kinds inside reverted blocks
 	ExpiryReverted        bool           // a reverted block expired >= 2 contracts of one list
+	TriggerStep           int            // the first step at which Trigger became true (-1: never)
 }
 
 // twinBase returns the checkpoint the twin for tip has to be opened at.
@@ -181,7 +182,7 @@ func wellFormed(prev *View, d Diffs) error {
 func Judge(nd *Node, tw *Twins) (*Finding, Stats) {
 	R := nd.T.Env.Net.HardforkV2.RequireHeight
 	A := nd.T.Env.Net.HardforkV2.AllowHeight
-	st := Stats{RevertedKinds: map[string]int{}}
+	st := Stats{RevertedKinds: map[string]int{}, TriggerStep: -1}
 	em := NewExpModel(R)
 	applied := map[int]Diffs{}
 	rr := map[types.Hash256]bool{}
@@ -239,6 +240,9 @@ func Judge(nd *Node, tw *Twins) (*Finding, Stats) {
 				}
 			}
 			if em.Revert(x.Height, s.Diffs) {
+				if !st.Trigger {
+					st.TriggerStep = i
+				}
 				st.Trigger = true
 			}
 			if maxH >= R && x.Height <= R {
